@@ -897,11 +897,16 @@ def inh_worker(task):
                     V("C06", "parent-from-child-wrong-value|%s" % sh, dict(case, observed=got, expected=want))
                     continue
                 res["nontrivial"].add(common.h(d["name"], cid, pid, json.dumps(cv, sort_keys=True)[:3000]))
-                # same bytes as the child
+                # same bytes as the child: as the reference encodes the child, and as the implementation
+                # itself encodes it (the property relates the two encoders, whatever the reference says)
                 r2 = call(pid, "enc", value=got)
                 if r2.get("to_vec", {}).get("ok") != bytes(cenc.data).hex():
                     V("C06", "parent-of-child-encodes-differently|%s" % sh,
                       dict(case, observed=r2.get("to_vec"), expected=bytes(cenc.data).hex()))
+                rc2 = call(cid, "enc", value=cv)
+                if "ok" in rc2.get("to_vec", {}) and rc2["to_vec"]["ok"] != r2.get("to_vec", {}).get("ok"):
+                    V("C06", "child-and-its-parent-encode-differently|%s" % sh,
+                      dict(case, observed={"child": rc2["to_vec"]["ok"], "parent_of_child": r2.get("to_vec")}))
                 # and back
                 r3 = call(pid, "down:%s" % cid, value=got)
                 if r3.get("ok") != cv:
